@@ -77,6 +77,48 @@ func c15Doc(rt *rapid.T, want byte) []byte {
 func TestC15(t *testing.T) {
 	runProp(t, "C15", func(e *env) {
 		r := e.r
+		// 0. endurance: tens of millions of values through one reader (counters and budgets
+		// that are per reader instead of per call), small reads before and after
+		if e.enumStage("endurance", "one reader: small reads, then a 2^20-member document read 17 times (quick: flat array through ReadValue and ReadArray; thorough: 4 member kinds x 3 entry points, 2^26 values), then small successful and failing reads", true) {
+			type bulk struct {
+				kind    string
+				variant int64
+			}
+			bulks := []bulk{{"ReadValue", 0}, {"ReadArray", 0}}
+			reps := int64(17)
+			if e.cfg.Thorough() {
+				bulks = []bulk{{"ReadValue", 0}, {"ReadArray", 0}, {"ReadValue", 1}, {"ReadObject", 1}, {"ReadValue", 2}, {"ReadArray", 2}, {"ReadValue", 3}, {"ReadArray", 3}}
+				reps = 65
+			}
+			for bi, b := range bulks {
+				if !e.cfg.Mine(bi) {
+					continue
+				}
+				restore := deterministicGC()
+				var run c15Runner
+				hist := []core.Case{
+					{Kind: "ReadValue", In: []byte(`{"a":[1,{"b":"x\n"}],"c":{}}`)},
+					{Kind: "ReadValue", In: []byte(`[1,`)},
+					{Kind: "bulk:" + b.kind, Ints: []int64{1 << 20, reps, b.variant}},
+					{Kind: "ReadValue", In: []byte(`{"a":[1,{"b":"x\n"}],"c":{}}`)},
+					{Kind: "ReadArray", In: []byte(`[[],{},"s",[1,2,3]]`)},
+					{Kind: "ReadObject", In: []byte(`{"k":[`)},
+					{Kind: "ReadObject", In: []byte(`{"k":[{"k":1}]}`)},
+				}
+				for i := range hist {
+					r.BeginCase(&core.Case{Prop: "C15", Kind: "history", Steps: hist[:i+1]})
+					info, err := run.step(&hist[i])
+					r.Eval(core.HashInts(core.Hash([]byte(hist[i].Kind), hist[i].In), append([]int64{int64(bi), int64(i)}, hist[i].Ints...)...), info.nontrivial || i >= 3)
+					r.Label("step." + hist[i].Kind)
+					if err != nil {
+						r.Fail(&core.Case{Prop: "C15", Kind: "history", Steps: hist[:i+1]}, fmt.Errorf("step %d: %w", i, err))
+						restore()
+						return
+					}
+				}
+				restore()
+			}
+		}
 		e.rapidStage("histories", "stateful", e.cfg.N(600, 100000), func(rt *rapid.T) {
 			defer deterministicGC()() // collections happen only at history start and at GC steps
 			var run c15Runner
